@@ -164,6 +164,7 @@ Plan doc_gen(const std::string &check, const std::string &tier, uint64_t seed, l
     Rng &rng = g.rng;
     Plan plan;
     bool c14 = check.compare(0, 3, "C14") == 0;
+    bool faulty = check.find("faulty") != std::string::npos;
     bool thorough = tier == "thorough";
     g.c14 = c14;
     // swarm configuration
@@ -297,6 +298,14 @@ Plan doc_gen(const std::string &check, const std::string &tier, uint64_t seed, l
 	for (long k = 0; k < n; ++k) emit_edit((int)rng.below(ntasks));
 	int ri = task_root[rng.below(ntasks)];
 	Op ex; ex.k = "export"; ex.i.assign(11, 0); ex.i[0] = ri; ex.i[1] = rng.chance(0.7); ex.s = {strf("f%d.yaml", cy)};
+	if (faulty && rng.chance(0.4)) {
+	    Fault f; double w2 = rng.uni();
+	    if (w2 < 0.4) { f.t = "alloc.vna"; f.n = rng.range(1, 60); } else if (w2 < 0.6) { f.t = "alloc.yaml"; f.n = rng.range(1, 150); }
+	    else if (w2 < 0.9) { f.t = "write.err"; f.n = rng.range(0, 500); f.e = rng.chance(0.5) ? ENOSPC : EIO; } else f.t = "close.err";
+	    ex.f.push_back(f);
+	    plan.ops.push_back(ex);
+	    ex.f.clear();	// once faults stop the export can be repeated
+	}
 	plan.ops.push_back(ex);
 	DNode saved = g.roots[ri];
 	if (rng.chance(0.7)) {
@@ -309,6 +318,14 @@ Plan doc_gen(const std::string &check, const std::string &tier, uint64_t seed, l
 	    g.roots[ri].clear();
 	}
 	Op im; im.k = rng.chance(0.5) ? "import_f" : "import_s"; im.i.assign(11, 0); im.i[0] = ri; im.i[1] = rng.chance(0.7); im.s = {strf("f%d.yaml", cy)};
+	if (faulty && rng.chance(0.5)) {
+	    Fault f; double w2 = rng.uni();
+	    if (w2 < 0.5) { f.t = "alloc.vna"; f.n = rng.range(1, 80); } else if (w2 < 0.7) { f.t = "alloc.yaml"; f.n = rng.range(1, 200); }
+	    else if (w2 < 0.85) { f.t = "read.eio"; f.n = rng.range(0, 400); } else { f.t = "read.eof"; f.n = rng.range(0, 400); }
+	    im.f.push_back(f);
+	    plan.ops.push_back(im);	// the engine empties the destination after an unpredicted import
+	    im.f.clear();
+	}
 	plan.ops.push_back(im);
 	g.roots[ri] = saved;
 	if (rng.chance(0.3)) {	// second import into another (empty or populated) root
